@@ -771,3 +771,26 @@ def c07_star_many(**p):
         c.oblige("one-node-per-non-star-atom", g.number_of_nodes() == n)
         check_bonds(c, g, want)
     return body
+
+
+def c01_reader_big(**p):
+    """Three-digit atom numbers in V2000 bond lines: a 120-atom chain (one 13C label) written with every bond
+    as 'i i+1', as 'i+1 i', and with the atom lines reversed; all renderings must give the same string."""
+    n = p.get("n", 120)
+
+    def body(c):
+        variant = c.choice("variant", 3)
+        lab = (3, 99, 100, 118)[c.choice("label_at", 4)]
+
+        def render(order, flip):
+            pos = {a: i + 1 for i, a in enumerate(order)}
+            al = [v2000_atom_line("C", (float(i), 0.0, 0.0)) for i in range(n)]
+            bl = [v2000_bond_line(pos[a + 1] if flip else pos[a], pos[a] if flip else pos[a + 1], 1) for a in range(n - 1)]
+            return v2000_text(al, bl, [v2000_prop_line("ISO", [(pos[lab], 13)])])
+        t1 = render(list(range(n)), False)
+        t2 = render(list(range(n)), True) if variant == 0 else (render(list(reversed(range(n))), False) if variant == 1 else render(list(reversed(range(n))), True))
+        read = T()["read"]
+        s1, s2 = tucan_of(read(t1)), tucan_of(read(t2))
+        c.note("variant", ["bonds written i+1 i", "atom lines reversed", "both"][variant])
+        c.oblige("strings-equal", s1 == s2, [s1[-30:], s2[-30:]])
+    return body
